@@ -3,6 +3,7 @@ import SmsVerif.Driver.Layout
 import SmsVerif.Driver.Meta
 import SmsVerif.Driver.Auth
 import SmsVerif.Driver.Gsm7
+import SmsVerif.Driver.Split
 open SmsVerif SmsVerif.Driver
 
 def dispatch (line : String) : String :=
@@ -13,6 +14,8 @@ def dispatch (line : String) : String :=
   | "dec" :: toks => (handleDec toks).getD "bad-op"
   | "decalloc" :: toks => (handleDecAlloc toks).getD "bad-op"
   | ["pdus"] => handlePdus
+  | "split" :: toks => (handleSplit toks).getD "bad-op"
+  | "parselong" :: toks => (handleParseLong toks).getD "bad-op"
   | "gsm" :: toks => (handleGsm toks).getD "bad-op"
   | "authin" :: toks => (handleAuthIn toks).getD "bad-op"
   | "meta" :: toks => (handleMeta toks).getD "bad-op"
